@@ -20,7 +20,7 @@ def viol(root, pids):
                         s.add(("ANALYSIS-ERROR", rr.rule, "below min instances", ""))
                     for o in rr.obs:
                         if not o.ok:
-                            s.add((o.rule, o.file, o.function, o.construct))
+                            s.add((o.rule if not o.undecided else 'UNDECIDED:' + o.rule, o.file, o.function, o.construct))
             out[pid] = s
         except AnalysisError as e:
             out[pid] = {("ANALYSIS-ERROR", str(e)[:200], "", "")}
